@@ -341,6 +341,10 @@ def parse_mism(out):
     if not m:
         return None
     txt = re.sub(r"\s+", "", m.group(1))      # the printer breaks lines anywhere, also right after "("
+    if txt == "[]":
+        return []
+    if not re.fullmatch(r"\[(\(\d+(%\w+)?,\d+(%\w+)?\);?)+\]", txt):
+        return None                            # fail closed: anything but a list of pairs of numbers is not "no mismatch"
     return [(int(a), int(b)) for a, b in re.findall(r"\((\d+)(?:%\w+)?,(\d+)(?:%\w+)?\)", txt)]
 
 
@@ -410,6 +414,29 @@ def main(ck):
         return
     what_cross = ("a listing in a database without any DROP SERIES misses series after DROP SERIES in ANOTHER database (stale deleted set "
                   "in the pooled index search)")
+    files = sorted(glob.glob(os.path.join(ck.verif, "corpus", "C13", "*.case")))
+    n = 22 if ck.tier == "quick" else 160
+    if getattr(ck, "replay", None):
+        rp = json.load(open(ck.replay))
+        p = os.path.join(ck.work, "replay.case")
+        open(p, "w").write(json.dumps(rp["history"]) + "\n")
+        files, n = [p], 0
+    conf = os.path.join(ck.repo, "config", "openGemini.singlenode.conf")
+    port = claim_ports(ck)
+    if port is None:
+        ck.broken.append("C13 black box: all nine port blocks of 21310-21399 are in use by other runs of this check")
+        return
+    # the black box runs for most of a minute, mostly waiting: the in-process purge harnesses and their model evaluation run meanwhile
+    import threading
+    bb = {}
+
+    def _blackbox():
+        try:
+            bb["res"] = ck.run([binp, srv, conf, str(port), str(n)] + files, timeout=1500)
+        except Exception as ex:           # noqa: never lose the failure
+            bb["res"] = (99, "exception in the black-box runner: %r" % (ex,))
+    th = threading.Thread(target=_blackbox)
+    th.start()
     # ---- physical purge of dropped series (in-process; the server runs it hourly)
     purgeb = ck.go_build("./cmd/c13purge", "c13purge")
     purge = None
@@ -516,19 +543,8 @@ def main(ck):
                 else:
                     ck.broken.append("correspondence C13 purge model / mergeset table: same number of pairs as the live content but a different "
                                      "set, and no variant of the model reproduces it (%s)" % ck.cov["purge_items"])
-    files = sorted(glob.glob(os.path.join(ck.verif, "corpus", "C13", "*.case")))
-    n = 22 if ck.tier == "quick" else 160
-    if getattr(ck, "replay", None):
-        rp = json.load(open(ck.replay))
-        p = os.path.join(ck.work, "replay.case")
-        open(p, "w").write(json.dumps(rp["history"]) + "\n")
-        files, n = [p], 0
-    conf = os.path.join(ck.repo, "config", "openGemini.singlenode.conf")
-    port = claim_ports(ck)
-    if port is None:
-        ck.broken.append("C13 black box: all nine port blocks of 21310-21399 are in use by other runs of this check")
-        return
-    rc, out = ck.run([binp, srv, conf, str(port), str(n)] + files, timeout=1500)
+    th.join()
+    rc, out = bb["res"]
     hs = [json.loads(l) for l in out.splitlines() if l.startswith('{"i"')]
     comp = None
     for l in out.splitlines():
@@ -579,8 +595,11 @@ def main(ck):
                 "Import ListNotations. Open Scope N_scope.\n")
         trend = [tree_case(h) for h in hs]
         tree_reads = sum(k for _, k in trend)
-        texts.append(("tree", thdr + "Definition cases : list tcase := [\n%s\n].\n"
-                      "Definition M := Eval vm_compute in tmismatches cases.\nPrint M.\n" % ";\n".join(t for t, _ in trend)))
+        NSH = 4
+        shard_of = [list(range(k, len(trend), NSH)) for k in range(NSH)]
+        for k in range(NSH):
+            texts.append(("tree%d" % k, thdr + "Definition cases : list tcase := [\n%s\n].\n"
+                          "Definition M := Eval vm_compute in tmismatches cases.\nPrint M.\n" % ";\n".join(trend[i][0] for i in shard_of[k])))
         tcan = json.loads(json.dumps(hs[0]))
         tmark = False
         for st in tcan["steps"]:
@@ -592,9 +611,15 @@ def main(ck):
                       "Definition M := Eval vm_compute in tmismatches cases.\nPrint M.\n" % tree_case(tcan)[0]))
         res = ck.coq_eval_many(texts, timeout=900)
         evaluated = True
-        rc_t, o_t = res[6]
-        tm = parse_mism(o_t) if rc_t == 0 else None
-        rc_c, o_c = res[7]
+        tm, o_t = [], ""
+        for k in range(NSH):
+            rc_t, o_k = res[6 + k]
+            part = parse_mism(o_k) if rc_t == 0 else None
+            if part is None or not shard_of[k] and part:
+                tm, o_t = None, o_k
+                break
+            tm += [(shard_of[k][a2], b2) for a2, b2 in part]          # (index inside the shard, op) -> (history, op)
+        rc_c, o_c = res[6 + NSH]
         tcm = parse_mism(o_c) if rc_c == 0 else None
         if tm is None or tcm is None:
             ck.broken.append("tree model evaluation failed: %s" % (o_t if tm is None else o_c)[-400:])
